@@ -141,7 +141,11 @@ func c02Random(c *Case) {
 	if dg.Chance(0.3) {
 		d = dg.WideTree(4, 5)
 	} else {
-		d = dg.Tree(xgen.DefaultTree())
+		o := xgen.DefaultTree()
+		if dg.Chance(0.3) {
+			o.TextVals, o.AttrVals = xgen.ExoticTextVals, xgen.ExoticAttrVals
+		}
+		d = dg.Tree(o)
 	}
 	ctx := d.Nodes[g.Intn(len(d.Nodes))]
 	if g.Chance(0.3) {
